@@ -16,7 +16,7 @@ THEOREMS = ['C05_spec_ok', 'C05_depinfo_roundtrip', 'C05_depinfo_lossless', 'C05
             'C05_order_insensitive', 'C05_excluded_args_unhashed', 'C05_shape_table', 'C05_shape_table_ok_iff',
             'C05_accepted_shape', 'C05_staticlibs_lookup', 'C05_staticlib_search_order', 'C05_staticlib_alt_spelling_refuted',
             'C05_staticlib_modifier_hashed', 'C05_compile_command_colour', 'C05_sysroot_libs_complete',
-            'C05_depinfo_run_sees_request', 'C05_archive_members_all_hashed', 'C05_extern_order_insensitive']
+            'C05_depinfo_every_listed_source', 'C05_depinfo_run_sees_request', 'C05_archive_members_all_hashed', 'C05_extern_order_insensitive']
 ASSUMPTIONS = [
     'sccache is REQUIRED to re-read every input file (sources, included files, --extern rlibs, static libraries, target json) on every request: a replacement with the same path, size and modification time must still be seen (monitored in-process by keypair same_stamp and end to end by the sm_* steps; no theorem depends on file metadata)',
     'named assumption about rustc (observed with rustc 1.95, unix target): for `-l static[:modifiers]=NAME` the archive bundled is libNAME.a from the FIRST of the `-L native=DIR` / `-L all=DIR` / `-L DIR` directories, in command-line order, that contains it (Model/RustArgs.v rustc_static_pick)',
@@ -93,7 +93,8 @@ def print_dep_info(targets, fs, envs):
 
 NAMES = [b'src/lib.rs', b'src/a.rs', b'a b.rs', b'dir with space/x y.rs', b'b\\c.rs', b'x\\ y', b'\xc3\xa9.rs', b'/abs/p.rs',
          b'./x.rs', b'x//y.rs', b'a/./b.rs', b'../up.rs', b'a:b', b'c: d', b'z', b'a.b', b'a/b', b'a', b'#', b'# env-dep:X',
-         b'src/m/inner.rs', b'/@/q.rs', b'tab\there', b'end:', b'.', b'..hidden', b'dot.', b'-dash']
+         b'src/m/inner.rs', b'/@/q.rs', b'tab\there', b'end:', b'.', b'..hidden', b'dot.', b'-dash',
+         b'assets/plugin.so', b'deps/libx.rlib', b'deps/libx.rmeta', b'a.dll', b'a.dylib', b'noext', b'so', b'x.so.1', b'.so']
 BAD_NAMES = [b'', b'trailing\\', b'cr\r', b'nl\nx']
 CWDS = [b'/cwd', b'/c/d/', b'/', b'', b'rel', b'/@']
 ENVS = [(b'VV', None), (b'VV', b''), (b'VV', b'x'), (b'CARGO_PKG_VERSION', b'0.1.0'), (b'A', b'b=c'), (b'W', b'line1\nline2'),
@@ -536,6 +537,10 @@ def base_request(rng):
     nsrc = rng.range(1, 4)
     srcs = src[:nsrc]
     files = {s: rng.choice(CONTENTS[:5]) for s in srcs}
+    if rng.chance(1, 3):
+        emb = rng.choice([b'assets/plugin.so', b'assets/blob.rlib', b'assets/meta.rmeta', b'assets/noext'])
+        srcs = srcs + [emb]
+        files[emb] = rng.choice([b'data1', b'data2'])
     argv = [b'--crate-name', b'foo', b'--edition=2021', b'src/lib.rs', b'--crate-type', rng.choice([b'lib', b'rlib', b'lib,staticlib']),
             b'--emit=' + rng.choice([b'dep-info,metadata,link', b'link', b'metadata,dep-info', b'dep-info,link']),
             b'-C', b'opt-level=3', b'--out-dir', rng.choice([b'out', b'/t/deps', b'out/']), b'--cfg', b'feature="b"', b'--cfg', b'zed',
@@ -603,6 +608,7 @@ def mutate(rng, r):
     kinds += ['envdep_class'] * 4 + ['arg_perm'] * 4 + ['same_stamp'] * 5 + ['content_swap'] * 4
     kinds += ['line_endings'] * 3 + ['colour'] * 3
     kinds += ['extern_same_name'] * 3 + ['archive_same_name_member'] * 3
+    kinds += ['source_any_extension'] * 4
     if b'spec.json' in argv:
         kinds += ['target_content']
     k = rng.choice(kinds)
@@ -690,6 +696,17 @@ def mutate(rng, r):
     elif k == 'static_dirs_swap':
         i = argv.index(b'native=zz_own')
         argv[i], argv[i + 2] = argv[i + 2], argv[i]
+    elif k == 'source_any_extension':
+        # a file rustc lists in dep-info (include_bytes!/include_str!) whose NAME looks like a library, an object, nothing:
+        # it is a source of the crate like any other, an edit must change the key
+        r0 = clone(r)
+        f = rng.choice([b'assets/plugin.so', b'assets/blob.rlib', b'assets/meta.rmeta', b'assets/w.dll', b'assets/m.dylib', b'assets/noext',
+                        b'assets/lib.a', b'assets/o.o', b'assets/x.so.1', b'assets/.so', b'assets/data.json'])
+        r0['files'][f] = b'data1'
+        r0['srcs'] = [x for x in r0['srcs'] if x != f] + [f]
+        m = clone(r0)
+        m['files'][f] = rng.choice([b'data2', CONTENTS[1]])
+        return 'source_any_extension:' + f.rsplit(b'/', 1)[1].decode(), exp, r0, m
     elif k == 'extern_same_name':
         # two --extern files with the SAME file name in different directories, given in either order: one key
         r0 = clone(r)
@@ -760,7 +777,7 @@ def mutate(rng, r):
         elif cls == 'included':
             m['files'][b'data/d.txt'] = b'data2'
         elif cls == 'extern':
-            ext = sorted(x for x in m['files'] if x.endswith(b'.rlib'))[0]
+            ext = sorted(x for x in m['files'] if x.endswith(b'.rlib') and x.startswith(b'deps/'))[0]
             m['files'][ext] = SAME_SIZE.get(m['files'][ext], b'rlib-v2')
         elif cls == 'staticlib':
             lib = sorted(x for x in m['files'] if x.endswith(b'libnat.a'))
